@@ -33,7 +33,7 @@ def partitions(tier):
 
     def add(prefix, v, known):
         for cmd, sub in ((0, ""), (1, ""), (2, ""), (3, "a"), (3, "b"), (3, "c"), (3, "d"), (4, "")):
-            for tag, dims in ((("", ids),) if q else (("", ids), ("A", idsA), ("B", idsB), ("C", idsC))):
+            for tag, dims in ((("", ids),) if (q or cmd == 3) else (("", ids), ("A", idsA), ("B", idsB), ("C", idsC))):
                 parts.append(dict(dims, name="%s%s-cmd%d%s" % (prefix, tag, cmd, sub), fn="sym_step", version=v, known=known, cmd=cmd, sub=sub,
                                   sym_reboot=(cmd == 1), sym_sleep=(cmd in (2, 3) and sub in ("", "b")),
                                   budget=500 if q else 3000, cost=4 if not tag else 9))
